@@ -248,4 +248,147 @@ theorem normalize_spec (P : X86Params) (hP : IsLvl P) (a : Nat) (ha : a < 2 ^ P.
   · exact ⟨by assumption, rfl⟩
   · rcases hP with rfl | rfl | rfl <;> lvl_unfold <;> omega
 
+
+/-! ### Montgomery reduction -/
+
+/-- `montF` is multiplication by `m = q + 2 = c·2^e + 1` modulo `R` -/
+theorem montF_eq (P : X86Params) (hP : IsLvl P) (x : Nat) : montF P x = x * (P.q + 2) % P.R := by
+  unfold montF
+  rcases hP with rfl | rfl | rfl <;> lvl_unfold <;> omega
+
+/-- `m = −1/q mod R`: `x + (x·m mod R)·q` is a multiple of `R` -/
+theorem mont_dvd (P : X86Params) (hP : IsLvl P) (x : Nat) : (x + montF P x * P.q) % P.R = 0 := by
+  rw [montF_eq P hP]
+  rcases hP with rfl | rfl | rfl <;> lvl_unfold <;> omega
+
+theorem montF_lt (P : X86Params) (hP : IsLvl P) (x : Nat) : montF P x < P.R := by
+  rw [montF_eq P hP]
+  exact Nat.mod_lt _ (by rcases hP with rfl | rfl | rfl <;> decide)
+
+/-- `montgomery_reduce`: canonical result (`q ↦ 0`) representing `x / R` -/
+theorem montgomery_reduce_spec (P : X86Params) (hP : IsLvl P) (x : Nat) (hx : x < P.R) :
+    montgomery_reduce P x < P.q ∧ (montgomery_reduce P x * P.R) % P.q = x % P.q := by
+  unfold montgomery_reduce
+  simp only
+  have h1 := mont_dvd P hP x
+  have h2 := montF_lt P hP x
+  generalize montF P x = f at *
+  have h3 := Nat.div_add_mod (x + f * P.q) P.R
+  rw [h1, Nat.add_zero] at h3
+  generalize (x + f * P.q) / P.R = h at *
+  have h4 : h ≤ P.q := by
+    rcases hP with rfl | rfl | rfl <;> lvl_unfold <;> omega
+  have h5 : h % P.R = h := by
+    apply Nat.mod_eq_of_lt
+    rcases hP with rfl | rfl | rfl <;> lvl_unfold <;> omega
+  rw [h5]
+  have h6 : (h * P.R) % P.q = x % P.q := by
+    rw [Nat.mul_comm, h3, Nat.add_mul_mod_self_right]
+  split
+  · rename_i hq
+    subst hq
+    refine ⟨by rcases hP with rfl | rfl | rfl <;> decide, ?_⟩
+    rw [← h6, Nat.zero_mul]
+    rw [Nat.mul_mod, Nat.mod_self, Nat.zero_mul]
+  · exact ⟨by omega, h6⟩
+
+/-- `encode` returns the canonical integer `a·R⁻¹ mod q` -/
+theorem encode_spec (P : X86Params) (hP : IsLvl P) (a : Nat) (ha : a < P.R) :
+    encode P a < P.q ∧ (encode P a * P.R) % P.q = a % P.q :=
+  montgomery_reduce_spec P hP a ha
+
+
+/-! ### multiplication -/
+
+/-- the Montgomery reduction step of `mul`/`square` on any integer `e < 2^(2B)` -/
+theorem montMulRed_spec (P : X86Params) (hP : IsLvl P) (e : Nat) (he : e < 2 ^ (2 * P.B)) :
+    montMulRed P e < 2 ^ P.B ∧ (montMulRed P e * P.R) % P.q = e % P.q := by
+  unfold montMulRed
+  simp only
+  have h1 := mont_dvd P hP e
+  have h2 := montF_lt P hP e
+  generalize montF P e = f at *
+  have h0 : (e + f * P.q) % (P.R * P.R) = e + f * P.q := by
+    apply Nat.mod_eq_of_lt
+    rcases hP with rfl | rfl | rfl <;> lvl_unfold <;> omega
+  rw [h0]
+  have h3 := Nat.div_add_mod (e + f * P.q) P.R
+  rw [h1, Nat.add_zero] at h3
+  generalize (e + f * P.q) / P.R = r at *
+  have h6 : (r * P.R) % P.q = e % P.q := by
+    rw [Nat.mul_comm, h3, Nat.add_mul_mod_self_right]
+  split
+  · -- lvl3: final partial_reduce
+    have hr : r < P.R := by
+      rcases hP with rfl | rfl | rfl <;> lvl_unfold <;> omega
+    obtain ⟨p1, p2⟩ := partial_reduce_spec P hP r hr
+    refine ⟨p1, ?_⟩
+    rw [Nat.mul_mod, p2, ← Nat.mul_mod, h6]
+  · rename_i hm
+    refine ⟨?_, h6⟩
+    rcases hP with rfl | rfl | rfl <;> lvl_unfold <;> first | omega | exact absurd trivial hm
+
+theorem mul_spec (P : X86Params) (hP : IsLvl P) (a b : Nat) (ha : a < 2 ^ P.B) (hb : b < 2 ^ P.B) :
+    mul P a b < 2 ^ P.B ∧ (mul P a b * P.R) % P.q = (a * b) % P.q := by
+  unfold mul
+  apply montMulRed_spec P hP
+  rw [Nat.two_mul, Nat.pow_add]
+  exact Nat.mul_lt_mul'' ha hb
+
+/-- lvl1 `square` (no carry is dropped there: the integer square is exact) -/
+theorem square_spec_x1 (a : Nat) (ha : a < 2 ^ x1.B) :
+    square x1 a < 2 ^ x1.B ∧ (square x1 a * x1.R) % x1.q = (a * a) % x1.q :=
+  mul_spec x1 (Or.inl rfl) a a ha ha
+
+
+/-! ### cancelling `R`, decode -/
+
+/-- `R⁻¹ mod q = c²·2^(2e−64n)`: `R·R⁻¹ = (q+1)² = 1 + q·(q+2)` -/
+theorem R_inv (P : X86Params) (hP : IsLvl P) :
+    P.R * (P.c * P.c * 2 ^ (2 * P.e - 64 * P.n)) = 1 + P.q * (P.q + 2) := by
+  rcases hP with rfl | rfl | rfl <;> decide
+
+theorem R_cancel (P : X86Params) (hP : IsLvl P) (x y : Nat) (h : (x * P.R) % P.q = (y * P.R) % P.q) :
+    x % P.q = y % P.q := by
+  have key : ∀ z : Nat, z % P.q = ((z * P.R) % P.q * (P.c * P.c * 2 ^ (2 * P.e - 64 * P.n))) % P.q := by
+    intro z
+    rw [Nat.mod_mul_mod, Nat.mul_assoc, R_inv P hP, Nat.mul_add, Nat.mul_one, ← Nat.mul_assoc,
+      Nat.mul_comm z P.q, Nat.mul_assoc, Nat.add_mul_mod_self_left]
+  rw [key x, key y, h]
+
+theorem r2_eq (P : X86Params) (hP : IsLvl P) : P.r2 < 2 ^ P.B ∧ P.r2 % P.q = (P.R * P.R) % P.q := by
+  rcases hP with rfl | rfl | rfl <;> decide
+
+theorem one_eq (P : X86Params) (hP : IsLvl P) : P.one < 2 ^ P.B ∧ P.one % P.q = P.R % P.q := by
+  rcases hP with rfl | rfl | rfl <;> decide
+
+/-- multiplying by `R2` converts to Montgomery form -/
+theorem mul_r2 (P : X86Params) (hP : IsLvl P) (v : Nat) (hv : v < 2 ^ P.B) :
+    mul P v P.r2 < 2 ^ P.B ∧ mul P v P.r2 % P.q = (v * P.R) % P.q := by
+  obtain ⟨h1, h2⟩ := r2_eq P hP
+  obtain ⟨h3, h4⟩ := mul_spec P hP v P.r2 hv h1
+  refine ⟨h3, ?_⟩
+  apply R_cancel P hP
+  rw [h4, Nat.mul_mod, h2, ← Nat.mul_mod, Nat.mul_assoc]
+
+/-- `decode`: canonical input `v < q` is accepted and converted to Montgomery form; any other 8n-byte
+    value is rejected (flag 0, value represents zero) -/
+theorem decode_spec (P : X86Params) (hP : IsLvl P) (v : Nat) (hv : v < P.R) :
+    (v < P.q → (decode P v).2 = T32 ∧ (decode P v).1 < 2 ^ P.B ∧ (decode P v).1 % P.q = (v * P.R) % P.q) ∧
+    (P.q ≤ v → (decode P v).2 = 0 ∧ (decode P v).1 < 2 ^ P.B ∧ (decode P v).1 % P.q = 0) := by
+  unfold decode
+  simp only [Nat.mod_eq_of_lt hv]
+  have hqB : P.q < 2 ^ P.B := by rcases hP with rfl | rfl | rfl <;> decide
+  constructor
+  · intro h
+    simp only [h, if_true]
+    have := mul_r2 P hP v (by omega)
+    exact ⟨by decide, this.1, this.2⟩
+  · intro h
+    have h' : ¬ v < P.q := by omega
+    simp only [h', if_false]
+    have := mul_r2 P hP 0 (Nat.pow_pos (by decide))
+    refine ⟨by decide, this.1, ?_⟩
+    rw [this.2, Nat.zero_mul, Nat.zero_mod]
+
 end SqiProofs.GfX86
